@@ -58,6 +58,57 @@ def stage1(run: Run):
     run.assume("Options.build is analysed in safety-only mode: calls that are not modelled (defaultdict, path.*, warnings.warn, Options(...)) are havoc'ed and assumed not to raise")
 
 
+def sanitised_names(run: Run):
+    """API.build.disambiguate_keyword_sanitize_fname: the name under which a file is registered is never one already taken (so every target file
+    keeps its own types module) - proved on the real nested function; os.path and str.replace are uninterpreted (the clause needs neither)."""
+    import keyword
+    from vf.model import FuncV
+    from vf.smt import Ref, fn
+    m = SchemaModel()
+    m.globals["invalid_module_names"] = pyv(frozenset(set(keyword.kwlist) | {"metadata", "retry", "timeout", "request"}))
+    m.globals["os"] = pyv(("module", "os"))
+    for nm, res in (("os.path.split", "Opaque"), ("os.path.splitext", "Opaque"), ("os.path.join", "Str")):
+        pass
+    split_h, split_t = fn("os.split.head", z3.StringSort(), z3.StringSort()), fn("os.split.tail", z3.StringSort(), z3.StringSort())
+    ext_r, ext_e = fn("os.splitext.root", z3.StringSort(), z3.StringSort()), fn("os.splitext.ext", z3.StringSort(), z3.StringSort())
+    join_ = fn("os.join", z3.StringSort(), z3.StringSort(), z3.StringSort())
+    repl_ = fn("str.replace_all", z3.StringSort(), z3.StringSort(), z3.StringSort(), z3.StringSort())
+    m.known_calls = {}
+    orig_call_node = m.call_node
+
+    def call_node(ex, e, st):
+        src = ast.unparse(e.func)
+        if src == "os.path.split":
+            a = ex.ev(e.args[0], st)
+            return tup([V(split_h(a.term), STR), V(split_t(a.term), STR)])
+        if src == "os.path.splitext":
+            a = ex.ev(e.args[0], st)
+            return tup([V(ext_r(a.term), STR), V(ext_e(a.term), STR)])
+        if src == "os.path.join":
+            a, b = ex.ev(e.args[0], st), ex.ev(e.args[1], st)
+            return V(join_(a.term, b.term), STR)
+        if isinstance(e.func, ast.Attribute) and e.func.attr == "replace" and len(e.args) == 2:
+            recv = ex.ev(e.func.value, st)
+            if recv.ty is STR:
+                a, b = ex.ev(e.args[0], st), ex.ev(e.args[1], st)
+                return V(repl_(recv.term, a.term, b.term), STR)
+        return orig_call_node(ex, e, st)
+    m.call_node = call_node
+    c = Contract("disambiguate_keyword_sanitize_fname", source=("gapic/schema/api.py", "API.build.disambiguate_keyword_sanitize_fname"),
+                 params={"full_path": "Str", "visited_names": "Map[Str,Opaque]"}, result="Str",
+                 ensures=["result not in visited_names"])
+    m.add_contract(c)
+    m.globals["disambiguate_keyword_sanitize_fname"] = pyv(FuncV("contract", "disambiguate_keyword_sanitize_fname", recv=None))
+    run.verify(m, c)
+    run.assume("os.path.split / splitext / join and str.replace are uninterpreted in the proof that a registered file name is never one already taken; "
+               "termination of the recursion is not proved")
+    # the caller registers every descriptor under the returned name, in order
+    fdef, h = find_def("gapic/schema/api.py", "API.build")
+    src = ast.unparse(fdef)
+    run.table("files.names:every-descriptor-registered-under-its-disambiguated-name",
+              "fd.name = disambiguate_keyword_sanitize_fname(fd.name, pre_protos)\n        pre_protos[fd.name] = Proto.build(" in src, group="files.names:registered-under-fresh-name")
+
+
 def structural(run: Run):
     # __init__.py completeness of the template tree: every directory (below the package root) that contains a python module template
     # or a sub-directory with one also has an __init__.py template
@@ -246,6 +297,7 @@ def witness_still_fails(k):
 def run(run: Run):
     run.witness_check = witness_still_fails
     stage1(run)
+    sanitised_names(run)
     structural(run)
     naming_lemmas(run)
     render_safety(run)
